@@ -186,12 +186,14 @@ type Result struct {
 	Retain  string // ok | corrupt:<what>
 	Closes  int
 	UserMap string // rendering of the user's global parameter map after the run
+	MultiOut, MultiEv string // multi-connection cases: per-connection renderings joined by "/"
 }
 
 var discardLogger = slog.New(slog.NewTextHandler(io.Discard, nil))
 
-func validateFn(s *session) func(ctx context.Context, database, username, password string) (context.Context, bool, error) {
+func validateFn(s0 *session) func(ctx context.Context, database, username, password string) (context.Context, bool, error) {
 	return func(ctx context.Context, database, username, password string) (context.Context, bool, error) {
+		s := s0.of(ctx)
 		s.log.add("V:" + hx([]byte(database)) + ":" + hx([]byte(username)) + ":" + hx([]byte(password)))
 		s.retain("password", password)
 		s.retain("username", username)
@@ -234,6 +236,7 @@ func buildServer(c *Case, s *session, tlsCfg *tls.Config) (*wire.Server, wire.Pa
 	for i, m := range c.MW {
 		i, m := i, m
 		opts = append(opts, wire.SessionMiddleware(func(ctx context.Context) (context.Context, error) {
+			s := s.of(ctx)
 			s.log.add("M" + strconv.Itoa(i))
 			if m == 'f' {
 				return ctx, errors.New("verif: middleware failed")
@@ -244,6 +247,7 @@ func buildServer(c *Case, s *session, tlsCfg *tls.Config) (*wire.Server, wire.Pa
 	if c.Term > 0 {
 		term := c.Term
 		opts = append(opts, wire.TerminateConn(func(ctx context.Context) error {
+			s := s.of(ctx)
 			s.log.add("T")
 			s.ctxs = append(s.ctxs, ctx)
 			if term == 2 {
@@ -274,6 +278,9 @@ func (s *session) checkRetained() string {
 func RunCase(c *Case) *Result {
 	if d, ok := c.Extra["direct"]; ok {
 		return runDirect(c, d)
+	}
+	if _, ok := c.Extra["conns"]; ok {
+		return runMulti(c)
 	}
 	s := &session{log: &evlog{}, cx: c.CX}
 	srv, userMap, err := buildServer(c, s, nil)
@@ -393,6 +400,9 @@ func (r *Result) Line() string {
 		} else {
 			dn[i] = "0"
 		}
+	}
+	if r.MultiOut != "" || r.MultiEv != "" {
+		return fmt.Sprintf("out=%s ev=%s end=%s at= dn= retain=%s closes=0 umap=%s", r.MultiOut, r.MultiEv, r.End, r.Retain, r.UserMap)
 	}
 	return fmt.Sprintf("out=%s ev=%s end=%s at=%s dn=%s retain=%s closes=%d umap=%s",
 		canonOut(r.Out), strings.Join(r.Ev, ";"), r.End, strings.Join(at, ","), strings.Join(dn, ""), r.Retain, r.Closes, r.UserMap)
